@@ -34,6 +34,10 @@ Monitors (implementation alone, from the property text):
   M8  a py block is judged against plain Python: `exec` of the same source with a dict copy of the context
       (and nothing else: NOT the pyimport names) as globals plus a `save` that copies named variables back,
       run on a deep copy of the context's world; outcome and the context afterwards must be the same
+  M10 a `save(...)` call made AFTER its py block has ended (`savecall` ops: the function object `get_save` made for
+      the block, kept by the harness from outside; impl-only stream 2: a helper function the block left in context
+      whose body calls save, called from later `!py` expressions / a kept reference, after keys were cleared /
+      rebound / contextclearall): the CALL adds / rebinds only the keys it is given, removes nothing
   M9  (implementation only, not compared with the model) every mutating method of the namespace object and
       of the objects reachable from it by method call (`copy()`, `new_child()`, `parents`, `|`), through
       every receiver (`globals()`, `locals()`, `vars()`, from a lambda / comprehension / :=): context keys,
@@ -338,6 +342,33 @@ def directed():
          Ex(App(N('obs'), N('len'))), Ex(App(N('obs'), N('a'))))], kind='collision')
     S([PI(('from', 'c14m1', 'n1', 'save'), ('from', 'c14m1', 'n2', 'py')), X(As('x', N('a')), Save(['x'])),
        E(T(N('save'), N('x')))], kind='collision')
+
+    # ---- save(...) called after its block has ended (the block kept the function / a helper that calls it) ----
+    def SC(blk, names, *kws): return {'savecall': [blk, list(names), [list(kv) for kv in kws]]}
+    KEEP = Def('hq', [], [], N('a'))       # keeps the block's namespace object alive in the model
+    blockA = X(KEEP, As('notes', N('a')), As('draft', N('len')), As('cnt', N('b')), Save(['hq', 'notes', 'draft']))
+    # the shape of the property text: a saved key cleared, another rebound, then save(count=…) again
+    S([blockA, DEL('draft'), SET(('notes', tok('ctx', 'notes#1'))), SC(0, [], ('count', tok('ctx', 'count#1'))),
+       E(T(N('notes'), N('count'))), E(N('draft')), SC(0, ['cnt'], ('count', 5)), E(N('cnt'))], kind='savelater')
+    S([blockA, SET(('hq', None), ('notes', 0)), SC(0, ['draft']), SC(0, [], ('k', ref(1))), DEL('draft', 'k'),
+       SC(0, ['notes', 'nope']), SC(0, ['notes'], ('notes', tok('ctx', 'notes#2'))), E(N('notes'))], kind='savelater')
+    S([blockA, CLR, SC(0, [], ('count', 1)), E(N('count')), E(N('notes')), SC(0, ['notes']), E(N('notes')),
+       SC(0, ['a', 'len'])], kind='savelater')
+    # a function of the block with `global` rebinding a block variable: the later save reads the namespace NOW
+    S([X(Def('f', [], [('notes', N('b'))], N('notes'), gl=['notes']), As('notes', N('a')), Save(['f', 'notes'])),
+       SC(0, ['notes']), E(Call(N('f'))), SC(0, ['notes']), E(N('notes')), DEL('notes'), SC(0, ['f']), E(N('notes'))],
+      kind='savelater')
+    # two blocks, each with its own namespace and its own save; interleaved calls
+    S([blockA, SET(('py', tok('special', 'py'))), X(KEEP, As('notes', N('b')), As('z', N('a')), Save(['z'])),
+       SC(1, ['notes']), SC(0, ['notes']), DEL('z', 'draft'), SC(1, [], ('w', 0)), SC(0, ['cnt'], ('w', 1)),
+       E(T(N('notes'), N('w')))], kind='savelater')
+    # the save of a block that raised half-way; save('save') from inside, then the kept function by savecall
+    S([X(KEEP, As('x', N('a')), Save(['x']), Ex(N('nope')), Save(['hq'])), DEL('x'), SC(0, ['hq']), E(N('x'))],
+      kind='savelater')
+    S([X(KEEP, Save(['save'])), SC(0, ['save', '__builtins__']), DEL('save'), SC(0, [], ('a', tok('ctx', 'a#1'))),
+       E(N('a'))], kind='savelater')
+    # after a rehydration the function writes the Context object left behind (outside the model; monitors go on)
+    S([blockA, RH('copy'), DEL('draft'), SC(0, [], ('count', 1)), E(N('draft'))], kind='savelater')
     return out
 
 
@@ -417,7 +448,7 @@ def check_cases(driver, cases, sink):
                 facts |= {'block:' + f for f in I.block_facts(op['exec'])}
                 sink.count('op:exec')
             else:
-                k = next(k for k in ('pyimport', 'ctxset', 'ctxdel', 'clearall', 'rehydrate') if k in op)
+                k = next(k for k in ('pyimport', 'ctxset', 'ctxdel', 'clearall', 'rehydrate', 'savecall') if k in op)
                 facts.add(k)
                 sink.count('op:' + k)
         for f in facts:
@@ -514,19 +545,26 @@ def ns_method_stream(rng, n_random):
     return out
 
 
+def save_helper_stream(rng, n_random):
+    """IMPLEMENTATION-ONLY cases: a py block leaves a helper function in context whose body calls save(...);
+    keys are cleared / rebound, then the helper is called from `!py` expressions / through a kept reference."""
+    return I.save_helper_directed() + [I.save_helper_case(rng) for _ in range(n_random)]
+
+
 def check_impl_only(cases, sink):
     for case in cases:
         signal.setitimer(signal.ITIMER_REAL, 10)
         try:
-            obs, findings = I.run_impl_only(case)
+            obs, findings = (I.run_save_helper if case['kind'] == 'impl-only-save' else I.run_impl_only)(case)
         except Hang:
             sink.violation(case, 'the evaluation did not return within 10 s',
-                           {'site': '_EvalNamespace', 'route': 'namespace-object-method', 'method': case['method'],
+                           {'site': 'py.get_save' if case['kind'] == 'impl-only-save' else '_EvalNamespace',
+                            'route': 'namespace-object-method', 'method': case['method'],
                             'effect': 'never-returned'}, None)
             continue
         finally:
             signal.setitimer(signal.ITIMER_REAL, 0)
-        sink.count('impl-only:ns-method:' + case['method'])
+        sink.count(('impl-only:' if case['kind'] == 'impl-only-save' else 'impl-only:ns-method:') + case['method'])
         sink.count('impl-only:outcome:' + ('ok' if 'ok' in obs else obs['err']))
         sink.case(case, True)
         for detail, sig, o in findings:
@@ -582,6 +620,9 @@ def run(env, res):
     sink = Sink()
     check_impl_only(ns_method_stream(env.rng, env.n(300, 20000)), sink)
     sink.into(res)
+    sink = Sink()
+    check_impl_only(save_helper_stream(env.rng, env.n(250, 8000)), sink)
+    sink.into(res)
     n = env.n(5000, 100000)
     if env.quick:
         gen = I.Gen(env.rng)
@@ -607,7 +648,7 @@ def replay(env, res, case):
         case = case['first_diverging_case']['case']
     signal.signal(signal.SIGALRM, _alarm)
     sink = Sink()
-    if case.get('kind') == 'impl-only':
+    if case.get('kind') in ('impl-only', 'impl-only-save'):
         check_impl_only([case], sink)
     else:
         check_cases(env.driver, [I.render(case)], sink)
